@@ -69,13 +69,25 @@ MUTANTS = [
     dict(name="c03-consume-pub", prop="C03", expect="witness:w_c03_r4_buffer_consume_private",
          edits=[E("src/circular_buffer.rs", "    pub(in crate::circular_buffer) fn consume(&self, n: usize) {", "    pub fn consume(&self, n: usize) {")]),
     dict(name="c03-lock-order-cycle", prop="C03", expect="C03.R6:",
-         edits=[E("src/vector_sink.rs", """impl<T: Copy> VectorSink<T> {
+         edits=[E("src/vector_sink.rs", """    /// Max number of samples and/or tags to store.
+    max_size: usize,
+}""", """    /// Max number of samples and/or tags to store.
+    max_size: usize,
+
+    #[rustradio(default)]
+    stats: Arc<Mutex<usize>>,
+}"""),
+                E("src/vector_sink.rs", """            i.consume(ilen);
+        }""", """            i.consume(ilen);
+            *self.stats.lock().unwrap() += n;
+        }"""),
+                E("src/vector_sink.rs", """impl<T: Copy> VectorSink<T> {
     /// Get a Hook into the data that will be written.""", """impl<T: Copy> VectorSink<T> {
-    /// Peek (mutant: takes the stream lock first, then storage).
-    pub fn peek_len(&self) -> usize {
-        let (i, _) = self.src.read_buf().unwrap();
-        let n = self.storage.lock().unwrap().0.len();
-        n + i.len()
+    /// Total (mutant: locks stats, then storage - the opposite order of work()).
+    pub fn total(&self) -> usize {
+        let s = self.stats.lock().unwrap();
+        let st = self.storage.lock().unwrap();
+        *s + st.0.len()
     }
     /// Get a Hook into the data that will be written.""")]),
     # ---------------- C04
@@ -324,11 +336,6 @@ MUTANTS = [
     dict(name="c14-au-decode-little-endian", prop="C14", expect="C14.R1:AU encoder/decoder",
          edits=[E("src/au.rs", "(i16::from_be_bytes(bytes) as Float) / 32767.0", "(i16::from_le_bytes(bytes) as Float) / 32767.0")]),
     # ---------------- C15
-    dict(name="c15-wpcr-min-samples-guard", prop="C15", expect="C15.D",
-         edits=[E("src/wpcr.rs", """        if samples.len() < 4 {
-            return None;
-        }
-""", "")]),
     dict(name="c15-hdlc-short-fcs-guard-removed", prop="C15", expect="C15.D1:hdlc_deframer::HdlcDeframer::update_state|overflow:Sub",
          edits=[E("src/hdlc_deframer.rs", """                        if bytes.len() < 2 {
                             // Too short to even hold a checksum.
